@@ -294,6 +294,8 @@ var c20templates = []string{
 	/* 18 */ "local r = f(\x01) == f(\x01, \x02)\nlocal s = f(\x01, \x02) == f(\x01)\nlocal u = f(\x01) == f(\x02)\nt[f()] = t[f(\x01)]\n",
 	// a name compared with a string literal that spells the name is not the same operand twice
 	/* 19 */ "local r = \x01 == \"\x02\"\nlocal s = \"\x01\" ~= \x01\nlocal u = t.\x01 == \"t.\x01\"\nlocal w = \x01 or \"\x02\"\nlocal z = \"\x01\" == \"\x02\"\n",
+	// the pattern occurring twice in one left-nested chain (same start, different ends) is reported twice
+	/* 20 */ "local w = \x01 or true or true\nlocal x = \x01 and false and false\nlocal y = \x01 == 1\x1b5 == 2\x1b5\nlocal z = \x01 == \x01 == \x01\n",
 }
 
 func VerifRun_C20() {
@@ -320,7 +322,21 @@ func VerifRun_C20() {
 		}
 	}
 	file := "/w/a.lua"
-	_, fs := vpProject([]string{file}, [][]byte{t})
+	p20, fs := vpProject([]string{file}, [][]byte{t})
+	// the published set (after de-duplication) must keep every diagnostic that differs from the others in
+	// type, range or text
+	pub := p20.GetAllFileErrorInfo()[file]
+	for _, e := range fs[0].FileResult.CheckErrVec {
+		kept := false
+		for _, q := range pub {
+			if q.ErrType == e.ErrType && q.ErrStr == e.ErrStr && locEq(q.Loc, e.Loc) && q.Loc.EndLine == e.Loc.EndLine && q.Loc.EndColumn == e.Loc.EndColumn {
+				kept = true
+			}
+		}
+		if !kept {
+			verifViolation("", "a diagnostic produced by the analysis is missing from the published set (lost in de-duplication)")
+		}
+	}
 	var got []c20hit
 	for _, e := range fs[0].FileResult.CheckErrVec {
 		switch int(e.ErrType) {
